@@ -77,6 +77,11 @@ def suites(rng, tier):
         lines = G.val_exhaustive(rng, "liq2", n["ex2"])
         out.append({"suite": "txval", "name": "txval-liq2-exhaustive", "lines": lines,
                     "distribution": {"alphabet": G.ALPHABETS["liq2"], "max_len": n["ex2"], "lists": len(lines)}})
+    if n["ex"]:
+        lines = G.val_exhaustive(rng, "liq3", n["ex"])
+        out.append({"suite": "txval", "name": "txval-liq3-trailing-bytes", "lines": lines,
+                    "distribution": {"alphabet": G.ALPHABETS["liq3"], "max_len": n["ex"], "lists": len(lines),
+                                     "note": "start / end instructions whose data carries bytes after the 8-byte discriminator (Anchor still dispatches them)"}})
     if n["small"]:
         lines = G.val_exhaustive(rng, "small", n["small"])
         out.append({"suite": "txval", "name": "txval-small-exhaustive", "lines": lines,
